@@ -301,6 +301,14 @@ creationDateLoop:
 		if base == nil || accent == nil {
 			continue
 		}
+		// A composite may be built from composites: without a limit the
+		// outlines double along a chain of glyphs (B from A and A, C from B and
+		// B, ...).  The copied commands count towards the same budget as the
+		// commands executed by the charstring decoder.
+		ctx.numOps += len(base.Cmds) + len(accent.Cmds)
+		if ctx.numOps > maxCharstringOps {
+			return nil, invalidSince("too many charstring commands")
+		}
 		g := glyphs[seac.name] // TODO(voss): do we need to make a copy here?
 		g.WidthX = base.WidthX
 		g.WidthY = base.WidthY
